@@ -1122,6 +1122,9 @@ func c10Handshake(c *Ctx) {
 		phases = append(phases, "before", "handshake.afterHelloWrite", "handshake.afterServerHello")
 	}
 	phases = append(phases, "no-server-hello", "no-server-hello")
+	// cancellation after the server hello while the peer has stopped reading: whatever the handshake still has to write
+	// (the addendum) blocks, and only closing the connection ends it
+	phases = append(phases, "afterServerHello+peer-stops-reading", "afterServerHello+peer-stops-reading", "afterServerHello+peer-stops-reading")
 	seenKeys := map[string]bool{}
 	for _, g := range phases {
 		if seenKeys[g] {
@@ -1137,6 +1140,12 @@ func c10Handshake(c *Ctx) {
 			if point == g {
 				cancel()
 				time.Sleep(5 * time.Millisecond)
+			}
+			if g == "afterServerHello+peer-stops-reading" && point == "handshake.afterServerHello" {
+				conn.mu.Lock()
+				conn.blockWritesAt = len(conn.written)
+				conn.mu.Unlock()
+				cancel()
 			}
 		}
 		if g == "before" {
